@@ -121,6 +121,33 @@ Section C07.
     (forall t' c', In (t', c') (st_cps st) -> t' <= target -> t' <= start) /\
     (start = 0 /\ w = base_from_initial St b \/ exists hash, In (start, (hash, w)) (st_cps st)).
 
+  (* What a successful restore_replay_base has verified about the checkpoint it starts from (the metadata part was
+     added by /repo 90bd2fa): hash and state root equal the expected root of its tick, it carries exactly `tick`
+     history artifacts and, for tick > 0, the last one is the commit recorded by entry tick-1. *)
+  Theorem restore_base_checked : forall (st : @store St P) (b : @wstate St) target w start,
+    restore_base st b target = inr (w, start) ->
+    match cp_before St (st_cps st) (lookup_tick target) with
+    | Some (t, (hash, cw)) =>
+        t = start /\ cw = w /\
+        expected_root_at St P st t = Some hash /\ ws_root St root cw = hash /\
+        lenN (ws_hist cw) = t /\
+        (t <> 0 -> exists e a, nthN (st_entries st) (t - 1) = Some e /\ last_opt (ws_hist cw) = Some a /\
+                               a_commit a = e_commit e)
+    | None => start = 0 /\ w = base_from_initial St b
+    end.
+  Proof. exact (restore_base_cases St P root). Qed.
+  Check restore_base_checked : forall (st : @store St P) (b : @wstate St) target w start,
+    restore_base st b target = inr (w, start) ->
+    match cp_before St (st_cps st) (lookup_tick target) with
+    | Some (t, (hash, cw)) =>
+        t = start /\ cw = w /\
+        expected_root_at St P st t = Some hash /\ ws_root St root cw = hash /\
+        lenN (ws_hist cw) = t /\
+        (t <> 0 -> exists e a, nthN (st_entries st) (t - 1) = Some e /\ last_opt (ws_hist cw) = Some a /\
+                               a_commit a = e_commit e)
+    | None => start = 0 /\ w = base_from_initial St b
+    end.
+
   (* Appending an entry keeps every checkpoint valid and every earlier replay unchanged. *)
   Theorem append_preserves : forall (st : @store St P) (b : @wstate St) e,
     cps_valid st b -> cps_valid (append St P st e) b /\
@@ -154,6 +181,7 @@ Print Assumptions checkpoint_sound.
 Print Assumptions checkpoint_sound_state.
 Print Assumptions seek_path_independent_foreign_cps.
 Print Assumptions restore_base_nearest.
+Print Assumptions restore_base_checked.
 Print Assumptions append_preserves.
 Print Assumptions live_run_replays.
 
@@ -196,34 +224,35 @@ Proof.
   - split; [vm_compute; reflexivity|]. split; [repeat constructor|]. vm_compute. repeat split; reflexivity.
 Qed.
 
-(* F12 (DESIGN section 6): the invariant needs the history to verify.  On a history whose entry 2 carries a wrong
-   state root, a forward seek from tick 1 fails AFTER mutating the cursor state in place: the tick is unchanged but
-   the state is no longer the replay of that tick.  (The code documents the cursor as undefined after a SeekError;
-   tampered histories are outside C07's quantifier.) *)
+(* F12 (DESIGN section 6), closed by /repo commit 7e0a2d4: for EVERY store (also a tampered one), base, cursor and
+   target, a seek that answers an error leaves the cursor on its previous tick AND its previous state.  Before that
+   commit the forward path advanced the cursor state in place, so a rejected seek left a partially advanced,
+   unverified state behind the unchanged tick (the former theorem `failed_seek_state_partial` exhibited it). *)
+Theorem failed_seek_keeps_cursor :
+  forall (st : s_store) (b : s_wstate) (c : s_cursor) (target : N) e,
+    snd (s_seek_to st b c target) = Some e ->
+    c_tick (fst (s_seek_to st b c target)) = c_tick c /\ c_ws (fst (s_seek_to st b c target)) = c_ws c /\
+    c_pin (fst (s_seek_to st b c target)) = c_pin c /\ c_mode (fst (s_seek_to st b c target)) = c_mode c.
+Proof. exact (seek_to_error_keeps_cursor slotmap spatch sapply sroot scommit sp_field sp_calc sp_policy sp_decision). Qed.
+Check failed_seek_keeps_cursor :
+  forall (st : s_store) (b : s_wstate) (c : s_cursor) (target : N) e,
+    snd (s_seek_to st b c target) = Some e ->
+    c_tick (fst (s_seek_to st b c target)) = c_tick c /\ c_ws (fst (s_seek_to st b c target)) = c_ws c /\
+    c_pin (fst (s_seek_to st b c target)) = c_pin c /\ c_mode (fst (s_seek_to st b c target)) = c_mode c.
+Print Assumptions failed_seek_keeps_cursor.
+
+(* the regression witness on a tampered history: entry 2 carries a wrong state root; the forward seek from tick 1 to 4
+   is rejected with SStateRoot 2 and the cursor still IS the replay of tick 1 *)
 Definition ex_bad_h : list s_entry :=
   match ex_h with
   | e0 :: e1 :: e2 :: r =>
-      e0 :: e1 :: {| e_patch := e_patch e2; e_root := e_root e2 + 1; e_pdig := e_pdig e2; e_commit := e_commit e2;
+      e0 :: e1 :: {| e_tick := e_tick e2; e_patch := e_patch e2; e_root := e_root e2 + 1; e_pdig := e_pdig e2; e_commit := e_commit e2;
                      e_parents := e_parents e2; e_receipt := e_receipt e2; e_out := e_out e2 |} :: r
   | l => l
   end.
-Theorem failed_seek_state_partial :
-  exists (st : s_store) (b : s_wstate) (c : s_cursor) (target : N),
-    s_replay (st_entries st) b (c_tick c) = (c_ws c, None) /\
-    let '(c', e) := s_seek_to st b c target in
-    e = Some (SStateRoot 2) /\ c_tick c' = c_tick c /\
-    s_replay (st_entries st) b (c_tick c') <> (c_ws c', None) /\
-    lenN (ws_hist (c_ws c')) = 2.
-Proof.
-  exists {| st_u0 := 1; st_boundary := sroot ex_init; st_entries := ex_bad_h; st_cps := [] |}, ex_b,
-         (fst (s_seek_to ex_st0 ex_b (new_cursor slotmap Reader ex_b 4) 1)), 4.
-  vm_compute. repeat split; try reflexivity. discriminate.
-Qed.
-Check failed_seek_state_partial :
-  exists (st : s_store) (b : s_wstate) (c : s_cursor) (target : N),
-    s_replay (st_entries st) b (c_tick c) = (c_ws c, None) /\
-    let '(c', e) := s_seek_to st b c target in
-    e = Some (SStateRoot 2) /\ c_tick c' = c_tick c /\
-    s_replay (st_entries st) b (c_tick c') <> (c_ws c', None) /\
-    lenN (ws_hist (c_ws c')) = 2.
-Print Assumptions failed_seek_state_partial.
+Example failed_seek_witness :
+  let st := {| st_u0 := 1; st_boundary := sroot ex_init; st_entries := ex_bad_h; st_cps := [] |} in
+  let c := fst (s_seek_to ex_st0 ex_b (new_cursor slotmap Reader ex_b 4) 1) in
+  let '(c', e) := s_seek_to st ex_b c 4 in
+  e = Some (SStateRoot 2) /\ c_tick c' = 1 /\ s_replay (st_entries st) ex_b (c_tick c') = (c_ws c', None).
+Proof. vm_compute. repeat split; reflexivity. Qed.
